@@ -111,7 +111,7 @@ class _NNF(ast.NodeTransformer):
         n.test = as_test(n.test)
         # canonical polarity
         neg = as_test(negate(n.test))
-        if norm(neg) < norm(n.test):
+        if (_neg_score(neg), norm(neg)) < (_neg_score(n.test), norm(n.test)):
             n.test, n.body, n.orelse = neg, n.orelse, n.body
         return n
 
